@@ -7,12 +7,7 @@ def ctcpDelim : Byte := 0x01
 def PRIVMSG : Bytes := [0x50, 0x52, 0x49, 0x56, 0x4D, 0x53, 0x47]
 def NOTICE : Bytes := [0x4E, 0x4F, 0x54, 0x49, 0x43, 0x45]
 
-structure CTCPEvent where
-  source : Option Source
-  command : Bytes
-  text : Bytes
-  reply : Bool
-  deriving DecidableEq, Repr
+-- `CTCPEvent` is declared in Girc/Base/GoSem.lean.
 
 /-- `(c < 'A' || c > 'Z') && (c < '0' || c > '9')` negated. -/
 def ctcpTagByte (c : Byte) : Bool := !((c < 0x41 || c > 0x5A) && (c < 0x30 || c > 0x39))
